@@ -12,6 +12,8 @@
        the unconfirmed set came back: it is tracked again although its confirmation was delivered)
    153 its later confirmation is not an update carrying the proof
    171 the stored copy of a delivered transaction cannot be fetched back by txid
+   122 / 124 / 126 the trusted flag / first-seen time did not survive: after the restart a transaction is reported
+       safe although the trusted peer never vouched for it, or before its safe delay has elapsed since it was first seen
    101 / 102 / 103 / 123 the flags did not survive: after the restart a transaction is reported safe although it
        was reported unsafe / cancelled before, or although a conflicting transaction is known (safe and unsafe
        both set, cancelled without unsafe included) *)
@@ -21,8 +23,8 @@ From V.proofs Require Import TxFlow_Proofs.
 
 Theorem C11_txflow :
   forall (delay : Z) (ops : list op),
-    flow_valid delay ops = true -> never_objects delay [101; 102; 103; 113; 121; 123; 127; 153; 171] ops.
-Proof. exact (txflow_never_objects_any [101; 102; 103; 113; 121; 123; 127; 153; 171]). Qed.
+    flow_valid delay ops = true -> never_objects delay [101; 102; 103; 113; 121; 122; 123; 124; 126; 127; 153; 171] ops.
+Proof. exact (txflow_never_objects_any [101; 102; 103; 113; 121; 122; 123; 124; 126; 127; 153; 171]). Qed.
 Print Assumptions C11_txflow.
 
 (* Non-vacuity: a valid history with a three-way conflict, a safe report, a confirmation that
